@@ -13,6 +13,13 @@
 (*                                           Len(wrap) + 1: a benign nested  *)
 (*                                           invocation of body invloop came *)
 (*                                           back as the timeout element     *)
+(*   [e |-> "hdl",    i, x = timeout | lua]  the message handler that is the  *)
+(*                                           INNER of wrapper i (xhe xht xhc) *)
+(*                                           was entered by Lua for an error *)
+(*                                           of that class (reported when the *)
+(*                                           class differs from that of the  *)
+(*                                           entry before: an error raised in *)
+(*                                           the handler enters it again)    *)
 (*   [e |-> "done",   i = 0, x = result]     expand() returned (if it did)  *)
 (* A trace is accepted when it is the projection on these visible steps of  *)
 (* some behaviour of the machine (all other machine steps are internal);    *)
@@ -38,7 +45,7 @@ TInit ==
 
 CatchCase ==
   /\ status = "running" /\ phase = "unwind" /\ stack # <<>>
-  /\ Top.k \in Catchers \cup {"lpc"}
+  /\ Top.k \in CatchFrames
   /\ ~Reraise
 
 \* the boundary of a nested invocation hands something to the enclosing module
@@ -49,6 +56,13 @@ NestedBack ==
 \* the time limit strikes in a benign nested invocation of body invloop and is handed to the loop in-band
 BodyBack == InNestedCall /\ "NestedTimeoutInBand" \in Dev /\ now > limit
 
+\* Lua calls the module's message handler: for the ordinary error of the protected function, or for the time limit
+\* error (a re-entry for an error of the class it is already handling is not reported again)
+HdlEntered(x) ==
+  /\ stack # <<>>
+  /\ IF x = "lua" THEN Top.k = "xpfe" /\ PFStep /\ stack' # stack
+     ELSE x = "timeout" /\ Top.k # "hdlt" /\ HookFires /\ stack' # stack
+
 Visible(e) ==
   CASE e.e = "enter" -> ~AtLoopLevel /\ Depth + 1 = e.i /\ Depth < Len(W) /\ W[Depth + 1] = e.x /\ Enter
     [] e.e = "caught" -> CatchCase /\ Depth = e.i /\ err = e.x /\ Unwind
@@ -56,12 +70,14 @@ Visible(e) ==
                        THEN BodyBack /\ e.x = "timeout" /\ HookFires    \* body invloop reports only this
                        ELSE /\ NestedBack /\ Depth = e.i
                             /\ IF phase = "ret" THEN e.x = "ok" /\ Ret ELSE e.x = err /\ Unwind
+    [] e.e = "hdl" -> Depth = e.i /\ HdlEntered(e.x)
     [] e.e = "done" -> (Unwind \/ Ret) /\ stack = <<>> /\ status' = e.x
     [] OTHER -> FALSE
 
 Internal ==
   \/ Invoke \/ Step \/ Tick
-  \/ HookFires /\ ~BodyBack
+  \/ PFStep /\ stack' = stack
+  \/ HookFires /\ ~BodyBack /\ (stack' = stack \/ Top.k = "hdlt")
   \/ AtLoopLevel /\ Enter          \* next iteration of a loop (reported only once)
   \/ Unwind /\ stack # <<>> /\ ~CatchCase /\ ~NestedBack
   \/ Ret /\ stack # <<>> /\ ~NestedBack
